@@ -9,6 +9,7 @@ import (
 	"verif/core"
 	"verif/grammar"
 	"verif/model"
+	"verif/runner"
 )
 
 func init() { register("C11", checkC11) }
@@ -187,6 +188,58 @@ func checkC11(c *core.Ctx) {
 			}
 			c.Sample(map[string]any{"args": strings.Join(args, " "), "spellings": l})
 		}
+	})
+
+	// trivia far beyond any buffer size: megabytes of comments, blank lines and indentation between the chords
+	c.Stream("huge", c.N(4, 16), func(i int, r *rand.Rand) {
+		chords := []string{"C[1]", "Dm7/A[1,1/2]{lic=la}", "R[2]", "G_7[4]{key=G}", "Em[1/3]", "F#dim7/A[2]", "Bb[1]{mrk=end}"}
+		args := []string{"text", "conv", "syllable"}
+		if i%2 == 1 {
+			chords = []string{"1[1]", "2m7/5[1,1/2]{lic=la}", "R[2]", "5_7[4]{bpm=90}", "3m[1/3]", "4#dim7/3[2]", "7b[1]{mrk=end}"}
+			args = []string{"text", "conv", "degree"}
+		}
+		base := strings.Join(chords, " ")
+		fill := []string{";" + strings.Repeat("padding ", 15) + "\n", "\n\t  \n", "      \t", ";\n", "; C[1] D[1] {x=y}\n"}
+		var b bytes.Buffer
+		size := []int{1200000, 2300000, 1048576 + 4096, 3200000}[i%4]
+		for k, ch := range chords {
+			if k > 0 {
+				b.WriteString("\n")
+				for b.Len() < size*k/(len(chords)-1) {
+					b.WriteString(fill[r.Intn(len(fill))])
+				}
+				b.WriteString("\n")
+			}
+			b.WriteString(ch)
+		}
+		b.WriteString(" ;the end")
+		big := b.Bytes()
+		if tr := grammar.Tokenize(big); tr.LexErr || !sameTokens(normTokens(tr.Tokens), normTokens(grammar.Tokenize([]byte(base)).Tokens)) {
+			c.Inconclusive("harness: huge variant does not carry the tokens of its base")
+			return
+		}
+		ref := run(c, []byte(base), args...)
+		var got *runner.Result
+		if i%4 < 2 {
+			got = runCPU(c, 300, big, args...)
+		} else {
+			got = runCPU(c, 300, nil, append(append([]string{}, args...), c.Scratch.File("huge.txt", big))...)
+		}
+		c.Eval(2)
+		if infra(c, ref) || infra(c, got) {
+			return
+		}
+		if a := abnormal(got); a != "" {
+			c.Violate("huge", i, "huge:abnormal", fmt.Sprintf("text conv %s on a %d byte respelling of %s", a, len(big), qs([]byte(base))), obs(got))
+			return
+		}
+		if !ref.OK() || got.OK() != ref.OK() || !bytes.Equal(got.Stdout, ref.Stdout) {
+			c.Violate("huge", i, "huge:bytes", fmt.Sprintf("%s (ok=%v) and its %d byte respelling with comments and blank lines between the chords (ok=%v) convert differently: %s", qs([]byte(base)), ref.OK(), len(big), got.OK(), firstLineDiff(ref.Stdout, got.Stdout)),
+				map[string]any{"base": obs(ref), "variant_stderr": short(string(got.Stderr), 400)})
+			return
+		}
+		c.Seen("variations", "megabytes-of-trivia")
+		c.Nontrivial(fmt.Sprintf("huge%d", i))
 	})
 }
 
